@@ -30,7 +30,7 @@ rc_with, rc_without = demo(True), demo(False)
 subprocess.run(["git", "-C", "/repo", "apply",
                 os.path.join(dst, "patch.diff")], check=True)
 try:
-    r = subprocess.run(["/venv/bin/python", "-m", "sa.check", prop],
+    r = subprocess.run(["/venv/bin/python", "-m", "sa.check", os.environ.get("SEED_CHECK", prop)],
                        cwd="/verif", capture_output=True, text=True,
                        env={**os.environ,
                             "VERIF_EVIDENCE_DIR": "/tmp/seed_evidence"})
